@@ -234,9 +234,44 @@ func TestC06_Exhaustive(t *testing.T) {
 // genValue draws a pool value or a fresh random value of a random type (mix 60/40).
 func genValue(t *rapid.T, depth int) val {
 	if rapid.IntRange(0, 9).Draw(t, "frompool") < 6 {
-		return rapid.SampledFrom(valuePool()).Draw(t, "pool")
+		v := rapid.SampledFrom(valuePool()).Draw(t, "pool")
+		if rapid.IntRange(0, 7).Draw(t, "neighbour") == 0 {
+			// the adjacent representable value / the same instant written differently
+			switch v.K {
+			case "double":
+				return vDouble(math.Nextafter(v.f64(), v.f64()*2+1))
+			case "float":
+				return vFloat(math.Nextafter32(v.f32(), v.f32()*2+1))
+			case "int":
+				return vInt(int(v.I + 1))
+			case "long":
+				return vLong(v.I - 1)
+			case "datetime":
+				if v.Z != "zero" {
+					return vTime(v.toTime().In(east3))
+				}
+			}
+		}
+		return v
 	}
-	switch rapid.IntRange(0, 9).Draw(t, "kind") {
+	switch rapid.IntRange(0, 10).Draw(t, "kind") {
+	case 10:
+		// integers just beside a rounding tie of float32 / float64 (double-rounding witnesses)
+		e := uint(rapid.IntRange(26, 62).Draw(t, "tieexp"))
+		bits := uint(24)
+		if e > 54 && rapid.Bool().Draw(t, "tie64") {
+			bits = 53
+		}
+		mant := rapid.Int64Range(0, (1<<(bits-1))-1).Draw(t, "tiemant")
+		v := int64(1)<<e | mant<<(e-bits+1) | int64(1)<<(e-bits)
+		v += int64(rapid.IntRange(-1, 1).Draw(t, "tieoff"))
+		if rapid.Bool().Draw(t, "tieneg") {
+			v = -v
+		}
+		if rapid.Bool().Draw(t, "tielong") {
+			return vLong(v)
+		}
+		return vInt(int(v))
 	case 0:
 		return vInt(rapid.Int().Draw(t, "int"))
 	case 1:
